@@ -114,7 +114,7 @@ package ipam
 //@ spec macro blkA(b *allocationBlock) []*int = b.AllocationBlock.Allocations
 //@ spec macro blkWF(b *allocationBlock) bool = b != nil && b.AllocationBlock != nil && (forall i int :: 0 <= i && i < len(blkU(b)) ==> 0 <= blkU(b)[i] && blkU(b)[i] < len(blkA(b)) && blkA(b)[blkU(b)[i]] == nil) && (forall i int, j int :: 0 <= i && i < j && j < len(blkU(b)) ==> blkU(b)[i] != blkU(b)[j])
 //@ func (*allocationBlock).assign
-//@   property C19
+//@   property C19, C21
 //@   option safety off
 //@   option absindex
 //@   option mathint
@@ -126,6 +126,11 @@ package ipam
 //@   ensures forall i int, j int :: 0 <= i && i < j && j < len(blkU(b)) ==> blkU(b)[i] != blkU(b)[j]
 //@   ensures len(blkA(b)) == old(len(blkA(b)))
 //@   ensures forall j int :: 0 <= j && j < len(blkA(b)) && old(blkA(b)[j]) != nil ==> blkA(b)[j] == old(blkA(b)[j])
+//@ -- the free list is a FIFO queue (longest-free first): taking one address out keeps the others in order
+//@   ensures res == nil ==> (len(blkU(b)) == old(len(blkU(b))) || len(blkU(b)) == old(len(blkU(b))) - 1)
+//@   ensures res == nil && len(blkU(b)) == old(len(blkU(b))) ==> (forall p int :: 0 <= p && p < len(blkU(b)) ==> blkU(b)[p] == old(blkU(b)[p]))
+//@   ensures res == nil && len(blkU(b)) == old(len(blkU(b))) - 1 ==> (forall p int :: 0 <= p && p < len(blkU(b)) ==> (blkU(b)[p] == old(blkU(b)[p]) || blkU(b)[p] == old(blkU(b)[p + 1])))
+//@   ensures res == nil && len(blkU(b)) == old(len(blkU(b))) - 1 ==> (forall p int, q int :: 0 <= p && p < q && q < len(blkU(b)) && blkU(b)[p] != old(blkU(b)[p]) ==> blkU(b)[q] == old(blkU(b)[q + 1]))
 //@   loop 1 invariant -1 <= rangeindex && rangeindex < len(blkU(b)) && (forall p int :: 0 <= p && p <= rangeindex ==> blkU(b)[p] != ordinal)
 
 //@ -- garbageCollect is the only place that puts addresses back on the free list: it keeps the block invariant
@@ -187,3 +192,16 @@ package ipam
 //@   requires b.AllocationBlock != nil
 //@   ensures res ==> (forall i int :: 0 <= i && i < len(b.AllocationBlock.Allocations) && b.AllocationBlock.Allocations[i] != nil ==> blkResv(b, i))
 //@   loop 1 invariant -1 <= rangeindex && rangeindex < len(b.AllocationBlock.Allocations) && (forall i int :: 0 <= i && i <= rangeindex && b.AllocationBlock.Allocations[i] != nil ==> blkResv(b, i))
+
+//@ -- C20, client level (thin): once the host owns as many affine blocks as the cap allows, the block search is told
+//@ -- not to claim another one; the strict-affinity flag reaches the block-level check for affine blocks; the hunt
+//@ -- through non-affine blocks happens only when strict affinity is off; the reservation filter is passed along
+//@ func (ipamClient).autoAssign
+//@   property C20
+//@   option safety off
+//@   option callpre off
+//@   option stable (*IPAMConfig).StrictAffinity, (*blockAssignState).allowNewClaim
+//@   ghost at call findOrClaimBlock: check (maxNumBlocks > 0 && numBlocksOwned >= maxNumBlocks) ==> !old(s.allowNewClaim)
+//@   ghost at call assignFromExistingBlock#1: check arg8 == old(config.StrictAffinity) && arg9 == reservations
+//@   ghost at call assignFromExistingBlock#2: check !old(config.StrictAffinity) && arg9 == reservations
+//@   ghost at call randomBlockGenerator: check !old(config.StrictAffinity)
